@@ -376,6 +376,13 @@ def judge(fam, case, res):
     dump = {}
     for iid, st, en, txt in res.get('dump', []):
         dump.setdefault(iid, []).append((en, txt))
+    if case.get('append_after'):
+        # appended: the ids of this file were shifted by one offset; compare its instances with the offset taken out again
+        first = set(intact_instances(case['append_after']))
+        new = {iid: v for iid, v in dump.items() if iid not in first}
+        off = (min(new) - 1) if new else 0
+        dump = {iid - off: [(en, re.sub(rb'#(\d+)', lambda m: b'#%d' % (int(m.group(1)) - off if int(m.group(1)) > off else int(m.group(1))), txt if isinstance(txt, bytes) else txt.encode('latin1'))) for en, txt in v]
+                for iid, v in new.items()}
     lost = []
     changed = []
     for iid, recs in intact.items():
@@ -456,8 +463,9 @@ def main():
         seen = set()
         uniq = []
         for c in cases:
-            if c['text'] not in seen:
-                seen.add(c['text'])
+            dk = (c['text'], c.get('append_after'), bool(c.get('strict')))
+            if dk not in seen:
+                seen.add(dk)
                 uniq.append(c)
         cases = uniq
         results = p21run.run_many(lib, cases, chunksize=16)
